@@ -16,7 +16,8 @@ clock scenario  {'kind': 'clock', 'clocks': [tempo, ...], 'tasks': [{'clock': ci
          ['tempo', ci, value]    TempoClock ci .tempo = value            (pending tasks keep their beat)
          ['beats', ci, back]     TempoClock ci .beats = clock.beats - back   (back >= 0: tasks are postponed)
     wake-up k of a task runs steps[k] (log, acts, return/yield ret); a Routine that returned is dead.
-    ret 'raise' / 'raiseB': the task raises RuntimeError / a BaseException that is not an Exception.
+    ret 'raise' / 'raiseB': the task raises RuntimeError / a BaseException that is not an Exception;
+    ret 'inf' / 'nan' (and sched delta 'inf'): never (re)scheduled, the task stays alive.
     numbers: 'i:2' int, 'z:0' float -0.0, else Fraction string (explicit zeros of every kind).
     result: {'log': [[j, seconds], ...], 'left': live entries left in the scheduler}
 
@@ -83,6 +84,8 @@ def ref_clock(sc):
     def act(a):
         now = state['now']
         if a[0] == 'sched':
+            if a[2] == 'inf':                                 # sched(inf, task): not scheduled, a pending wake-up stays
+                return
             add(a[1], clocks[tasks[a[1]]['clock']].s2b(now) + Fr(a[2]))
         elif a[0] == 'abs':
             add(a[1], floor(clocks[tasks[a[1]]['clock']].s2b(now)) + Fr(a[2]))
@@ -119,7 +122,7 @@ def ref_clock(sc):
         if ret is None or ret in ('raise', 'raiseB'):       # an error in a task ends it, nobody else is disturbed
             if tasks[j]['type'] == 'R':
                 dead[j] = True
-        else:
+        elif ret not in ('inf', 'nan'):                       # answering inf or nan = never rescheduled (the task stays alive)
             add(j, beats + Fr(ret))
     return {'log': log, 'left': 0}
 
@@ -211,6 +214,8 @@ def judge_clock(sc, res):
     log = res.get('log')
     if log is None:
         return ('other', 'runner error: %s' % res.get('error'))
+    if any(t in ('nan', 'inf', '-inf') for _, t in log):
+        return ('order', 'a task woke at a logical time that is not a number: %s' % log)
     times = [Fr(t) for _, t in log]
     if any(a > b for a, b in zip(times, times[1:])):
         return ('order', 'wake-up times decrease: %s' % log)
